@@ -118,7 +118,7 @@ def encode_trace(tr):
 _STATS_RE = re.compile(r"(\d+) states generated, (\d+) distinct states found")
 
 
-def run_batches(traces, workers=16, timeout=3600, keep=None, heap="8g", max_support=4000):
+def run_batches(traces, workers=16, timeout=1500, keep=None, heap="8g", max_support=4000):
     """traces: python-form traces.  Returns (verdicts by id, stats, errors by id)"""
     by_D = {}
     errors = {}
@@ -131,7 +131,11 @@ def run_batches(traces, workers=16, timeout=3600, keep=None, heap="8g", max_supp
         by_D.setdefault(D, []).append(enc)
     verdicts = {}
     stats = {"states": 0, "distinct": 0, "tlc_runs": 0, "tlc_wall_s": 0.0, "D": sorted(by_D)}
-    for D, encs in sorted(by_D.items()):
+    chunks = []
+    for D, encs_all in sorted(by_D.items()):
+        for i in range(0, len(encs_all), 60):                  # a TLC run that runs out of time loses 60 traces at most
+            chunks.append((D, encs_all[i:i + 60]))
+    for D, encs in chunks:
         work = tempfile.mkdtemp(prefix="verif-tlc-")
         try:
             batch = os.path.join(work, "batch.json")
@@ -145,7 +149,21 @@ def run_batches(traces, workers=16, timeout=3600, keep=None, heap="8g", max_supp
                    "-noGenerateSpecTE", "-config", os.path.join(SPEC_DIR, "LoopTrace.cfg"),
                    os.path.join(SPEC_DIR, "LoopTrace.tla")]
             t0 = time.time()
-            p = subprocess.run(cmd, cwd=SPEC_DIR, env=env, capture_output=True, text=True, timeout=timeout)
+            try:
+                p = subprocess.run(cmd, cwd=SPEC_DIR, env=env, capture_output=True, text=True, timeout=timeout)
+            except subprocess.TimeoutExpired:
+                stats["tlc_wall_s"] += time.time() - t0
+                stats["tlc_runs"] += 1
+                for e in encs:
+                    vf = os.path.join(outdir, e["id"] + ".json")
+                    if os.path.exists(vf):
+                        with open(vf) as f:
+                            v = json.load(f)
+                        v["D"] = D
+                        verdicts[e["id"]] = v
+                    else:
+                        errors[e["id"]] = "tlc timeout: no verdict within the time limit (not judged)"
+                continue
             stats["tlc_wall_s"] += time.time() - t0
             stats["tlc_runs"] += 1
             m = _STATS_RE.search(p.stdout)
